@@ -172,6 +172,11 @@ class CallMixin:
           if isinstance(n, ast.FunctionDef) and n.name == name and any(
               d.endswith('.setter') for d in world_mod.decorators(n)):
             return self.call_method(obj, mod, cls, n, [v], {})
+    if (name not in obj.f and name not in obj.types and not name.startswith('__') and self.reg.classes.get(obj.cls) is not None
+        and id(obj) not in self.__dict__.get('run_created', ()) and not self.spec_mode):
+      # an object of the pre-state gets an attribute its class schema (the contract's view of the state) does not know: a
+      # renamed / new private field - the clauses cannot speak about it, so this is outside the contract, not a violation
+      raise Unsupported(f'write to attribute {name!r} of a {obj.cls}, which the contracts do not describe')
     self.record_write(obj, name)
     obj.f[name] = v
 
@@ -226,6 +231,10 @@ class CallMixin:
     raise Unsupported(f'setitem on {type(base).__name__}')
 
   def check_guard(self, m, what):
+    # only WRITES outside the lock break the discipline the properties rest on; an unlocked read (a racy pre-check that is
+    # repeated under the lock, a monitoring read) is not a violation of any of them
+    if what in ('read', 'contains', 'get', 'items', 'keys', 'values', '__len__'):
+      return
     if m.guard is not None and m.guard.held == 0 and not self.spec_mode:
       self.oblige(f'{self.cur_name}/lock-discipline[{what}]', z3.BoolVal(False), 'lock-discipline',
                   {'text': f'{what} of a map guarded by {m.guard.name} outside the lock'})
